@@ -46,7 +46,7 @@ META = dict(
 
 VARIANTS = ['plain', 'geo_index', 'int_ids', 'missing_control',
             'missing_geo', 'dup_column', 'extra_column', 'dup_ids',
-            'string_cell']
+            'dup_ids_mixed_type', 'string_cell']
 
 
 def build(variant, ids, cells):
@@ -54,6 +54,8 @@ def build(variant, ids, cells):
   gid = [int(g) for g in ids] if variant == 'int_ids' else list(ids)
   if variant == 'dup_ids':
     gid = [gid[0]] * len(gid)
+  if variant == 'dup_ids_mixed_type':
+    gid = [501, '501'] + gid[2:]     # same ID once as int, once as str
   df = pd.DataFrame(dict(geo=gid, control=[r[0] for r in cells],
                          treatment=[r[1] for r in cells],
                          exclude=[r[2] for r in cells]))
@@ -77,7 +79,7 @@ def well_formed(variant, n):
   if variant in ('missing_control', 'missing_geo', 'dup_column',
                  'string_cell'):
     return False
-  if variant == 'dup_ids' and n > 1:
+  if variant in ('dup_ids', 'dup_ids_mixed_type') and n > 1:
     return False
   return True
 
